@@ -195,7 +195,7 @@ macro_rules! impl_select_zero_small {
                     inventory.push(0);
                     inventory_begin.push(0);
                 } else {
-                    inventory_begin.push(small_counters.as_ref().len());
+                    inventory_begin.push(inventory.len());
                 }
 
                 // assert_eq!(inventory.len(), inventory_size + 1);
